@@ -57,6 +57,8 @@ class Contract:
         self.inline = False
         self.assumed = False  # contract of an external / out-of-reach function: used, never proved here
         self.assumed_reason = ""
+        self.assumed_variants: Optional[Callable] = None  # fn(tags) -> True for parameter-type variants that are only assumed (not verified)
+        self.assumed_variants_reason = ""
         self.reads_structure = False
         self.oracles: dict[str, dict] = {}
         self.lemmas: list[Callable] = []  # extra ghost facts (each is itself an obligation before being assumed)
